@@ -412,6 +412,7 @@ def _uniq_model(cx, port, p, mod, c):
     if init is None or wr is None:
         return None
     n = 0
+    used_hash = []
     seqs = [(['x', '1'], ['x', '2'], ['x', '1'], ['x', '2']), (['k'], ['k'], ['m'], ['k']), ([], ['', ''], [], [''])]
     try:
         for seq in seqs:
@@ -428,6 +429,9 @@ def _uniq_model(cx, port, p, mod, c):
                         return not (refuse_at is not None and len(forwarded) - 1 == refuse_at)
                     if fname == 'JSON.stringify' and len(args) == 1 and isinstance(args[0], (list, tuple)) and all(isinstance(x, str) for x in args[0]):
                         return _json.dumps(list(args[0]))
+                    if fname == 'hash' and len(args) == 1:
+                        used_hash.append(1)
+                        return 0         # hash() may give two different values the same number: the model takes a hash function that always does
                     return AX.NOT_HANDLED
                 ex = AX.Explorer(p, mod, on_call=on_call, max_choices=1)
                 ex.cls = c.name
@@ -448,7 +452,7 @@ def _uniq_model(cx, port, p, mod, c):
                         return 'DISTINCT modifies the record it is given ({})'.format(what), n
                     if is_first:
                         if len(forwarded) != before + 1 or forwarded[-1] is not r:
-                            return '{}: a first occurrence is not forwarded (unchanged, once) to the next writer'.format(what), n
+                            return '{}: a first occurrence is not forwarded (unchanged, once) to the next writer{}'.format(what, ' - records are told apart by hash() only, and different records can have the same hash' if used_hash else ''), n
                         refused = refuse_at is not None and len(forwarded) - 1 == refuse_at
                         if bool(got) != (not refused) or not isinstance(got, bool):
                             return '{}: the next writer {} the record but DISTINCT returns {!r}'.format(what, 'refused' if refused else 'accepted', got), n
